@@ -42,6 +42,20 @@ CLAIMED.update({
     ),
 })
 
+CLAIMED.update({
+    'C05': (
+        'proxy symbolic execution (own bvx engine, z3 bit-vectors) of the real forge.py code, differential against a reference codec',
+        'Bounded symbolic model checking of forge_int/unforge_int/forge_nat/forge_micheline/unforge_micheline: the real function '
+        'bodies run on z3 bit-vector proxies, all paths are enumerated; every byte string up to the bound is decoded by pytezos and '
+        'by an independent reference decoder on the same path (accept/reject and result must agree, re-encoding must equal the '
+        'reference encoding); integers are symbolic up to the stated width with checked no-overflow side conditions; tree shapes '
+        'with symbolic leaves, truncation, extension and length-prefix perturbation obligations.',
+        'Reference codec ref/michbin.py (validated on the 20 mainnet scripts each run); prim table replaced by a symbolic bijection '
+        'justified by a concrete table comparison; non-ASCII text is outside the claim; 0x40 accepted as 0.',
+        'DESIGN.md C05',
+    ),
+})
+
 NOT_APPLICABLE = {
     'C18': 'Parser is a PLY regex lexer + LALR tables + json; every input is concrete before the code under test runs, '
            'so a solver has nothing to decide (CrossHair regex model also unsound here). See DESIGN.md section 6.',
